@@ -93,6 +93,29 @@ def one(sid, rnd, hook, order, nx, creds_when, extlate=False):
     return s.done()
 
 
+def late_hook(sid, gap):
+    """the restore hook of the runtime outlives its deadline (the restore fails with the timeout); an invocation
+    arrives while the runtime is still busy with the hook; when the runtime finally asks for its first event it
+    gets that invocation at once"""
+    s = Scn(sid, ext=[], timeout_ms=1500, initCaching=True, fullEnv=True)
+    s.meta(family="restore", hook="late", order="poll-first", gap=gap)
+    s.init()
+    s.await_exec(kind="rt")
+    rp = s.call("rt", "restorenext", async_=True)
+    s.until_state("rt", "RestoreReady")
+    rt = s.call("", "restore", async_=True, tag=s.tag("R"), ms=150, label="A")
+    s.wait(rp)
+    s.wait(rt)                  # hook timeout
+    it = s.invoke(size=3, seed=1)
+    s.sleep(gap)
+    polled = s.poll("rt")
+    s.wait(polled)
+    s.call("rt", "response", id="current", body="after-late-hook")
+    s.poll("rt")
+    s.wait(it)
+    return s.done()
+
+
 def scenarios(ctx):
     rnd = random.Random(ctx.seed * 181 + 18)
     out = []
@@ -118,6 +141,8 @@ def scenarios(ctx):
                     for cw in (("before", "after"), ("after",), ("before",), ()):
                         n += 1
                         out.append(one("c18-%03d" % n, rnd, hook, order, nx, cw))
+    for i, gap in enumerate((40, 150) if ctx.quick else (0, 10, 40, 150, 400)):
+        out.append(late_hook("c18-late%d" % (i + 1), gap))
     # plain mode: the snapshot routes and the credentials endpoint do not exist
     s = Scn("c18-plain", ext=[], timeout_ms=400)
     s.meta(family="restore-plain")
